@@ -148,7 +148,7 @@ func c04(c *core.Ctx, r *core.Report) {
 		r.Floor("go statements starting workers", nGo, 2)
 	})
 
-	rule(r, "C04.R2", freshStateText, func() { freshStateRule(c, r) })
+	rule(r, "C04.R2", freshStateText, func() { freshStateRule(c, r, true) })
 
 	rule(r, "C04.R3", "start barrier: the start WaitGroup is Added numWorkers before the workers are spawned, each worker calls Done exactly once before its loop, and either Start waits for it before returning or every worker waits for it before its loop", func() {
 		n := 0
@@ -398,7 +398,7 @@ func concurrencyParamSources(c *core.Ctx, fn *ssa.Function, r *core.Report) bool
 const freshStateText = "each pool's state slice is made fresh with length numWorkers; every element is a newly created state holding a newly created T; the pool's numWorkers is the same value; creation sites pass the configured concurrency"
 
 // freshStateRule is C04.R2 (= C07.R5): test handles are owned by exactly one worker of one pool.
-func freshStateRule(c *core.Ctx, r *core.Report) {
+func freshStateRule(c *core.Ctx, r *core.Report, withCounts bool) {
 	// constructors: functions of internal/workers storing into a field of type []*iterationState
 	n := 0
 	for _, fn := range c.AllFuncs {
@@ -452,6 +452,9 @@ func freshStateRule(c *core.Ctx, r *core.Report) {
 		})
 	}
 	r.Floor("pool constructors", n, 2)
+	if !withCounts {
+		return // how many workers a pool gets is C04's clause, not part of handle isolation
+	}
 	// creation sites outside the package pass the configured concurrency
 	m := 0
 	for _, fn := range c.AllFuncs {
